@@ -2,9 +2,11 @@ package main
 
 import (
 	"fmt"
+	"runtime"
 	"strings"
 	"sync"
 	"sync/atomic"
+	"time"
 
 	otter "github.com/maypok86/otter/v2"
 )
@@ -158,17 +160,45 @@ func runRing(seed uint64, scale int, out string, _ string) *summary {
 	}
 
 	// ---- (b) striped buffer under contention (implementation-only oracles)
-	rounds := 40 * scale
+	// many short rounds on fresh buffers: attaching stripes and expanding the stripe table happen only in
+	// the first moments of a buffer's life, and that is where an accepted read can be orphaned
+	rounds := 700 * scale
 	for rd := 0; rd < rounds; rd++ {
-		maxLen := []int{1, 2, 4, 8, 16}[r.intn(5)]
+		maxLen := []int{1, 2, 4, 8, 16, 64, 64}[r.intn(7)]
 		s := otter.VerifNewStriped(maxLen)
-		G := 2 + r.intn(7)
-		per := 200 + r.intn(400)
+		G := 2 + r.intn(11)
+		per := 20 + r.intn(120)
+		if rd%20 == 0 {
+			per = 200 + r.intn(400)
+		}
 		var wg sync.WaitGroup
 		success := make([]map[int]bool, G)
 		var delivered []int
 		var dmu sync.Mutex
 		stop := make(chan struct{})
+		startAll := make(chan struct{})
+		// a producer that has just seen an empty stripe slot is held back for a moment (hook 2 of the
+		// package) while the others go on and may expand the stripe table underneath it
+		var hk atomic.Uint64
+		hk.Store(seed*977 + uint64(rd))
+		perturb := rd%4 != 0
+		otter.VerifSetLossyHook(func(id int) {
+			if id != 2 || !perturb {
+				return
+			}
+			x := hk.Add(0x9e3779b97f4a7c15)
+			x ^= x >> 29
+			switch x % 4 {
+			case 0:
+			case 1:
+				runtime.Gosched()
+			default:
+				for i := uint64(0); i < 1+x%6; i++ {
+					runtime.Gosched()
+				}
+				time.Sleep(time.Duration(x%30) * time.Microsecond)
+			}
+		})
 		lastStripes := 0
 		shrink := false
 		overCap := false
@@ -200,6 +230,7 @@ func runRing(seed uint64, scale int, out string, _ string) *summary {
 			wg.Add(1)
 			go func(g int) {
 				defer wg.Done()
+				<-startAll
 				for i := 0; i < per; i++ {
 					v := (rd*16+g)*100000 + i + 1
 					if s.Add(v) == 0 {
@@ -208,9 +239,11 @@ func runRing(seed uint64, scale int, out string, _ string) *summary {
 				}
 			}(g)
 		}
+		close(startAll)
 		wg.Wait()
 		close(stop)
 		<-drainDone
+		otter.VerifSetLossyHook(nil)
 		// quiescent: one more drain must deliver everything still recorded
 		delivered = append(delivered, s.DrainTo()...)
 		leftover := s.DrainTo()
